@@ -2,7 +2,7 @@
 Driver op `c01.ref`: evaluate the executable twin of the direct reading on given finite interpretations.
 -/
 import Cnl2aspModel.Cnl.Codec
-import Cnl2aspModel.Cnl.RefExec
+import Cnl2aspModel.Cnl.RefExecSound
 
 namespace Cnl2aspModel.Core.Codec
 open Lean Asp Core
@@ -21,7 +21,14 @@ def refOp (j : Json) : Json :=
         | some M => Json.bool (Exec.refCheckB s U M)
         | none => Json.null
       | _ => Json.null)
-    Json.mkObj [("ok", Json.arr answers.toArray)]
+    let covered := (getArr j "models").all (fun m =>
+      match m with
+      | .arr a => match a.toList.mapM gatomOf with
+        | some M => Exec.coversB U M
+        | none => false
+      | _ => false)
+    -- `exact`: the hypotheses of Exec.refCheckB_iff hold (every sentence range-restricted and aggregate-free, values covered)
+    Json.mkObj [("ok", Json.arr answers.toArray), ("exact", Json.bool (s.all Exec.Sentence.safeB && covered))]
   | _, _ => Json.mkObj [("err", "bad-spec")]
 
 end Cnl2aspModel.Core.Codec
